@@ -469,6 +469,53 @@ def rule_factories_keep_their_hands_off(rep, repo):
               "%r)%s" % (cfg, snap(o1), before, "; it is one of the operand "
                          "objects" if any(o1 is q for q in (a1, a2, b1, b2))
                          else ""), loc=loc, instance=cfg)
+  # ... and every request is answered from its operands alone: a request
+  # made after another one (on a NEW factory object; operands that agree in
+  # kind and widths, or differ only in the value cap of a power-of-two
+  # operand) gets the type a fresh interpreter derives for it
+  def po2_capped(pe, tag, cap):
+    q = operand(pe, "po2_s", tag, 4, 4)
+    q.attrs["max_val_po2"] = cap
+    return q
+  seqs = [
+      ("same kinds, other widths",
+       lambda pe: (operand(pe, "fixed_s", "1", 6, 2),
+                   operand(pe, "fixed_s", "2", 5, 1)),
+       lambda pe: (operand(pe, "fixed_s", "1", 3, 0),
+                   operand(pe, "fixed_s", "2", 2, 0))),
+      ("po2 operand capped at 1, then uncapped",
+       lambda pe: (operand(pe, "fixed_s", "1", 10, 1), po2_capped(pe, "2",
+                                                                  1)),
+       lambda pe: (operand(pe, "fixed_s", "1", 10, 1), po2_capped(pe, "2",
+                                                                  -1))),
+      ("po2 operand uncapped, then capped at 2",
+       lambda pe: (operand(pe, "fixed_s", "1", 10, 1), po2_capped(pe, "2",
+                                                                  -1)),
+       lambda pe: (operand(pe, "fixed_s", "1", 10, 1), po2_capped(pe, "2",
+                                                                  2))),
+  ]
+  for label, first, second in seqs:
+    cfg = "IAdder.make_quantizer twice: %s" % label
+    try:
+      pe = PE(repo)
+      f1 = pe.call(pe.lookup_global("IAdder", af), [], {})
+      pe.call(pe.getattr(f1, "make_quantizer"), list(first(pe)), {})
+      f2 = pe.call(pe.lookup_global("IAdder", af), [], {})
+      r2 = pe.call(pe.getattr(f2, "make_quantizer"), list(second(pe)), {})
+      pf = PE(repo)
+      ff = pf.call(pf.lookup_global("IAdder", af), [], {})
+      rf = pf.call(pf.getattr(ff, "make_quantizer"), list(second(pf)), {})
+    except PyRaise as e:
+      rep.fail("R8", unit, "factory-raises", "%s raises %s" % (cfg, e),
+               loc=loc, instance=cfg)
+      continue
+    n += 1
+    got, want = snap(r2.attrs.get("output")), snap(rf.attrs.get("output"))
+    rep.check(got == want and r2.cls is rf.cls, "R8", unit,
+              "result-depends-on-earlier-request",
+              "%s: the second request gives %s %r, the same request alone "
+              "%s %r" % (cfg, r2.cls.name, got, rf.cls.name, want), loc=loc,
+              instance=cfg)
   unit = "%s::AccumulatorFactory.make_accumulator" % cf.relpath
   rep.unit(unit)
   loc = cf.loc(cf.classes["AccumulatorFactory"].node)
